@@ -21,7 +21,7 @@ pub fn tier_for(property: &str, tier: &str) -> Tier {
         Tier {
             spec_cfgs: vec!["K1", "K2", "K3", "K4", "K5"],
             clients: 3,
-            addrs: vec!["192.0.2.10", "192.0.2.11", "192.0.2.12", "198.51.100.10", "10.9.9.9"],
+            addrs: vec!["192.0.2.9", "192.0.2.10", "192.0.2.11", "198.51.100.10", "10.9.9.9"],
             ticks: vec![1, 150, 299, 300, 301, 30_000, 100_000],
             max_depth: 6,
             budget_s: 900.0,
@@ -32,7 +32,7 @@ pub fn tier_for(property: &str, tier: &str) -> Tier {
         Tier {
             spec_cfgs: vec!["K1", "K2", "K3", "K4", "K5"],
             clients: 2,
-            addrs: vec!["192.0.2.10", "192.0.2.11", "192.0.2.12", "198.51.100.10", "10.9.9.9"],
+            addrs: vec!["192.0.2.9", "192.0.2.10", "192.0.2.11", "198.51.100.10", "10.9.9.9"],
             ticks: vec![1, 150, 299, 300, 301, 30_000],
             max_depth: 4,
             budget_s: 30.0,
@@ -86,6 +86,27 @@ pub fn run(property: &str, tier: &str, replay: Option<Value>) -> ! {
             rep.violation(f.v);
         }
     }
+    // long-lived histories (no reopen between messages): same oracles, path by path
+    let roots = longlived_roots();
+    let ll_alpha = longlived_alphabet(&cfgs, tier == "thorough");
+    let ll_depth = if tier == "thorough" { 4 } else { 3 };
+    let (ll, ll_found) = match longlived_histories(&cfgs, &ll_alpha, &roots, ll_depth, false) {
+        Ok(x) => x,
+        Err(e) => {
+            rep.machinery_error(format!("long-lived histories: {e}"));
+            rep.finish()
+        }
+    };
+    for f in ll_found {
+        if f.property == property {
+            rep.violation(f.v);
+        }
+    }
+    rep.cov("long_lived_histories", ll.histories);
+    rep.cov("long_lived_message_steps", ll.steps);
+    rep.cov("long_lived_depth", ll.depth);
+    rep.cov("long_lived_alphabet_ops", ll_alpha.ops.len() as u64);
+    rep.cov("long_lived_rule", "every history of exactly long_lived_depth operations over a reduced alphabet (K1-K4, 2 clients, one named address, 2-3 ticks), from the empty store and the two-client deep root, executed on ONE Pool that is never reopened (state the Pool object carries between messages is invisible to the exact-state search, which rebuilds it at every transition); every step judged by the same oracles");
     let mut probe_evals = 0u64;
     if property == "C13" {
         let (n, vs) = c13_probes(&cfgs, &stats, &alpha);
@@ -156,13 +177,13 @@ fn c13_probes(cfgs: &[Cfg], stats: &BfsStats, _alpha: &Alphabet) -> (u64, Vec<Vi
                             m2.xid = xid;
                             m2.flags = flags;
                             m2.giaddr = gi.parse().unwrap();
-                            m2.req = Some("192.0.2.10".parse().unwrap());
+                            m2.req = Some("192.0.2.9".parse().unwrap());
                             probes.push(m2);
                         }
                     }
                     // a renewing client (ciaddr set) is still not this server's business if it names another server
                     if [1u8, 3, 7, 8].contains(&t) {
-                        for ci_addr in ["192.0.2.10"] {
+                        for ci_addr in ["192.0.2.9"] {
                             let mut m3 = m.clone();
                             m3.ciaddr = Some(ci_addr.parse().unwrap());
                             probes.push(m3);
